@@ -51,6 +51,9 @@ def assumed_contracts(items):
         for q, spec in mod.SPECS.items():
             if spec.pure and spec.note.startswith('ASSUMED'): out.append('%s: %s' % (q, spec.note))
             elif getattr(spec, 'region', None) is not None and (quals is None or q in quals): out.append('%s: %s' % (q, spec.note or 'REGION: entry state assumed'))
+            if (quals is None or q in quals) and not spec.pure:
+                if getattr(spec, 'pool_model', False): out.append('%s: ASSUMED contract of multiprocessing -- pool.apply_async(g, args).get() == g(*args); pool.imap_unordered(partial(g, **kw), xs) = the values g(x, **kw), x in xs, in an arbitrary order (%s)' % (q, spec.note))
+            if getattr(spec, 'deterministic', False): out.append('%s: ASSUMED deterministic (its result is a function of its arguments; in-place writes to a library value it receives are not seen by other calls)' % q)
     return sorted(set(out))
 
 
